@@ -7,7 +7,10 @@ import MtailVerif.Model.Bytes
 namespace MtailVerif.TailerPoll
 open MtailVerif
 
-inductive Kind | file | dir
+/-- `other`: something that is neither a regular file nor a directory and that no stream can be
+    opened on (a device, a socket file): `Ignore` lets it through, `TailPath` fails on it, and
+    `doPatternGlob` goes on to the next match -/
+inductive Kind | file | dir | other
 deriving DecidableEq, Repr
 
 structure T where
@@ -29,6 +32,7 @@ structure Cfg where
 inductive Op
   | createFile (p : Bytes)
   | mkdir (p : Bytes)
+  | createOther (p : Bytes)
   | remove (p : Bytes)
   | rename (p q : Bytes)
   | appendLine (p l : Bytes)
@@ -67,6 +71,7 @@ def step (cfg : Cfg) (t : T) : Op → T
     if (kindOf t p).isSome then t
     else { t with nodes := t.nodes ++ [(p, .file)], fresh := if t.streams.contains p then p :: t.fresh else t.fresh }
   | .mkdir p => if (kindOf t p).isSome then t else { t with nodes := t.nodes ++ [(p, .dir)] }
+  | .createOther p => if (kindOf t p).isSome then t else { t with nodes := t.nodes ++ [(p, .other)] }
   | .remove p => { t with nodes := t.nodes.filter (·.1 ≠ p), pending := t.pending.filter (·.1 ≠ p) }
   | .rename p q =>
     match kindOf t p, kindOf t q with
